@@ -9,6 +9,7 @@ import (
 	"github.com/google/pprof/internal/measurement"
 	"github.com/google/pprof/profile"
 	"github.com/google/pprof/xverif/model"
+	"github.com/google/pprof/xverif/pp"
 	"github.com/google/pprof/xverif/vk"
 	"pgregory.net/rapid"
 )
@@ -492,4 +493,155 @@ func checkProf(c *profCase, o *vk.Obs) []string {
 func TestPropProfiles(t *testing.T) {
 	vk.Main(t, vk.Spec[profCase]{ID: "C15", Facet: "profiles", Quick: 10000, Thorough: 100000, Gen: genProf, Check: checkProf,
 		Rule: "1..4 profiles x 1..3 sample types, each type in ns/us/ms/s under several spellings, values incl. zeros in some columns; oracle: after ScaleProfiles every profile uses the finest unit present, per-type physical totals are unchanged and no sample with a non-zero value disappears; non-trivial = units differ between profiles"})
+}
+
+// ---- facet report: the unit a report chooses for its numbers ----
+
+type reportCase struct {
+	From  spelled // unit of the sample type
+	Vals  []int64 // one single-frame sample per entry (flat == cum)
+	Mode  int     // 0 minimum (pprof's default), 1 auto, 2 explicit unit
+	ToIdx int
+}
+
+func genReport(t *rapid.T) *reportCase {
+	c := &reportCase{From: spelling(t, "from"), Mode: rapid.IntRange(0, 2).Draw(t, "mode"), ToIdx: rapid.IntRange(0, 8).Draw(t, "toidx")}
+	n := rapid.IntRange(1, 5).Draw(t, "n")
+	for i := 0; i < n; i++ {
+		// mantissa x a step of the family, so that entries land in different natural units
+		m := rapid.Int64Range(1, 999).Draw(t, "mant")
+		step := rapid.SampledFrom([]int64{1, 1, 1000, 1024, 1000000, 1 << 20, 1000000000, 3600}).Draw(t, "step")
+		v := m * step
+		if rapid.Bool().Draw(t, "neg") {
+			v = -v
+		}
+		c.Vals = append(c.Vals, v)
+	}
+	return c
+}
+
+func reportProfile(c *reportCase, sign int64) *profile.Profile {
+	p := &profile.Profile{SampleType: []*profile.ValueType{{Type: "cpu", Unit: c.From.Text}}, PeriodType: &profile.ValueType{Type: "cpu", Unit: c.From.Text}, Period: 1}
+	m := &profile.Mapping{ID: 1, Start: 0x400000, Limit: 0x500000, File: "/bin/app", HasFunctions: true}
+	p.Mapping = []*profile.Mapping{m}
+	for i, v := range c.Vals {
+		f := &profile.Function{ID: uint64(i + 1), Name: fmt.Sprintf("fn%d", i), SystemName: fmt.Sprintf("fn%d", i), Filename: "a.go"}
+		l := &profile.Location{ID: uint64(i + 1), Mapping: m, Address: 0x400100 + uint64(i)*16, Line: []profile.Line{{Function: f, Line: 1}}}
+		p.Function = append(p.Function, f)
+		p.Location = append(p.Location, l)
+		p.Sample = append(p.Sample, &profile.Sample{Location: []*profile.Location{l}, Value: []int64{sign * v}})
+	}
+	return p
+}
+
+func checkReport(c *reportCase, o *vk.Obs) []string {
+	var e vk.Errs
+	fam := families[c.From.Fam]
+	fu := fam[c.From.Idx]
+	unitFlag := []string{"minimum", "auto", ""}[c.Mode]
+	var explicit unit
+	if c.Mode == 2 {
+		explicit = fam[c.ToIdx%len(fam)]
+		unitFlag = explicit.aliases[0]
+	}
+	o.Label("unit:" + []string{"minimum", "auto", "explicit"}[c.Mode])
+	run := func(sign int64) (map[string]model.TopRow, string, []string) {
+		res := pp.Run(pp.Req{Flags: map[string]string{"top": "true", "output": "out", "unit": unitFlag, "trim": "false", "nodecount": "0"}, Args: []string{"src"},
+			Sources: map[string]*pp.Source{"src": {Prof: reportProfile(c, sign)}}})
+		if res.Panic != "" {
+			return nil, "", []string{"pprof panicked: " + res.Panic}
+		}
+		if res.Err != nil {
+			return nil, "", []string{"pprof -top failed: " + res.Err.Error()}
+		}
+		_, rows, err := model.ParseTop(res.Out("out"))
+		if err != nil {
+			return nil, "", []string{"cannot parse -top: " + err.Error() + "\n" + res.Out("out")}
+		}
+		m := map[string]model.TopRow{}
+		for _, r := range rows {
+			m[r.Name] = r
+		}
+		return m, res.Out("out"), nil
+	}
+	rows, out, errs := run(1)
+	if errs != nil {
+		return errs
+	}
+	neg, _, errs := run(-1)
+	if errs != nil {
+		return errs
+	}
+	o.NonTrivial = len(c.Vals) >= 2
+	// smallest non-zero magnitude of the report, in base units of the family
+	minMag := math.Inf(1)
+	for _, v := range c.Vals {
+		minMag = math.Min(minMag, math.Abs(float64(v))*fu.factor)
+	}
+	natural := func(mag float64) int { // index of the largest unit that keeps mag at or above one
+		best := 0
+		for i, u := range fam {
+			if mag/u.factor >= 1 {
+				best = i
+			}
+		}
+		return best
+	}
+	units := map[string]bool{}
+	for i, v := range c.Vals {
+		name := fmt.Sprintf("fn%d", i)
+		r, ok := rows[name]
+		if !ok {
+			e.Addf("entry %s (value %d %s) is missing from -top -unit=%s:\n%s", name, v, c.From.Text, unitFlag, out)
+			continue
+		}
+		want := float64(v) * fu.factor
+		if r.FlatS != "0" {
+			fi, ui, ok := famOfCanon(r.FlatUnit)
+			if !ok || fi != c.From.Fam {
+				e.Addf("-top -unit=%s prints %q for a value in %q: not a unit of the same family", unitFlag, r.FlatS, c.From.Text)
+				continue
+			}
+			units[r.FlatUnit] = true
+			f := fam[ui].factor
+			if back := r.FlatF * f; math.Abs(back-want) > 0.005*f*1.0000001+math.Abs(want)*1e-12 {
+				e.Addf("-top -unit=%s prints %q for %d %s: reads back as %v base units, original %v", unitFlag, r.FlatS, v, c.From.Text, back, want)
+			}
+			switch c.Mode {
+			case 1:
+				if wantU := natural(math.Abs(want)); ui != wantU {
+					e.Addf("-top -unit=auto prints %q for %d %s: the largest unit keeping the magnitude at or above one is %s", r.FlatS, v, c.From.Text, fam[wantU].canon)
+				}
+			case 2:
+				if fam[ui].canon != explicit.canon {
+					e.Addf("-top -unit=%s prints %q", unitFlag, r.FlatS)
+				}
+			}
+		}
+		// negation: the mirrored profile prints the mirrored numbers in the same units
+		if nr, ok := neg[name]; !ok || strings.TrimPrefix(nr.FlatS, "-") != strings.TrimPrefix(r.FlatS, "-") || (r.FlatF != 0 && (nr.FlatF < 0) == (r.FlatF < 0)) {
+			e.Addf("-top -unit=%s: %s prints %q for %d %s but %q for the negated profile", unitFlag, name, r.FlatS, v, c.From.Text, nr.FlatS)
+		}
+	}
+	if c.Mode == 0 && len(e) == 0 {
+		// one unit for the whole report: the natural unit of its smallest non-zero magnitude
+		if len(units) > 1 {
+			e.Addf("-top -unit=minimum mixes units %v:\n%s", units, out)
+		}
+		// The report may go up to the natural unit of 100 x the smallest magnitude when the total is in a
+		// larger unit (selectOutputUnit's documented refinement: "allowing minimum value to be scaled down
+		// to 0.01"); it never goes below the natural unit of the smallest magnitude nor above that bracket.
+		for u := range units {
+			_, ui, _ := famOfCanon(u)
+			if lo, hi := natural(minMag), natural(100*minMag); ui < lo || ui > hi {
+				e.Addf("-top -unit=minimum reports in %s; the smallest magnitude of the report (%v base units) calls for a unit between %s and %s (values %v %s):\n%s", u, minMag, fam[lo].canon, fam[hi].canon, c.Vals, c.From.Text, out)
+			}
+		}
+	}
+	return e
+}
+
+func TestPropReport(t *testing.T) {
+	vk.Main(t, vk.Spec[reportCase]{ID: "C15", Facet: "report", Quick: 3000, Thorough: 30000, Gen: genReport, Check: checkReport, Journal: true,
+		Rule: "profiles of 1..5 single-frame entries whose values (mantissa 1..999 times a step of the unit family, either sign) are in a drawn spelling of a byte/time/GCU unit, printed by pprof -top with unit = minimum (default) / auto / an explicit unit of the family; oracle: every printed number reads back within display rounding of the value, units stay in the family, auto picks per entry the largest unit keeping the magnitude at or above one, minimum reports everything in one unit between the natural unit of the smallest non-zero magnitude and that of 100 times it, an explicit unit is honoured, and the negated profile prints the mirrored numbers in the same units; non-trivial = at least two entries"})
 }
